@@ -1,6 +1,7 @@
 """Registry of the checks: which monitor program, in which sanitizer flavor, how many cases
 per tier, evidence floors, rule text and assumptions. Read by bin/vcheck."""
 
+import glob, os
 PROPS = {}
 HOOK_COMMITS = ["584cdfe"]
 
@@ -21,3 +22,24 @@ PROPS["C13"] = dict(
                  "the real find_pdu/tins_cast are executed only when the flag predicate says the cast is valid (otherwise it would be UB); "
                  "the predicate evaluated is the same expression they use (matches_flag / pdu_type)"],
 )
+
+PROPS["C06"] = dict(
+    level="exploration",
+    technique="history + executable byte-map reference model checked after every packet, under ASan/UBSan; exhaustive small scope + random large histories",
+    level_text="The real DataTracker / Flow::process_packet / legacy TCPStreamFollower are driven with generated segment histories (random partitions, retransmissions with "
+               "other boundaries, overlaps, duplicates, stale and zero-length segments, wrap-around ISNs) and compared with a byte-map model after every packet; all arrival orders "
+               "of every set of <=4 segments of a 6-byte stream are enumerated at 6 ISNs.",
+    level_note="Trusted: the 40-line byte-map model; segments lie within 2^31 of the delivery point (streams <= 64 KiB) as the property assumes. An empty data notification is not a violation.",
+    phases=[dict(name="exhaustive", harness="c06.cpp", flavor="asan", mode="exhaustive", cases=dict(quick=7546, thorough=7546)),
+            dict(name="random", harness="c06.cpp", flavor="asan", mode="random", cases=dict(quick=100000, thorough=2000000))],
+    rule="case = (stream bytes, ISN, multiset of segments (off,len), arrival order); distinct = distinct (ISN, ordered segment list); non-trivial = every history has >=1 segment "
+         "and is checked after each packet; exhaustive part: |s|=6, all sets of <=4 distinct segments x all orders x 6 ISNs",
+    floors=dict(any={"distinct": 10000, "exhaustive_sets": 7546, "br:history-wraps-2^32": 500, "br:slice-on-entry": 100, "br:slice-buffered": 100,
+                     "br:replace-longer": 100, "br:keep-longer-or-equal": 100, "br:erase-seen": 100, "histories:Flow": 1000, "histories:TCPStreamFollower": 1000}),
+    assumptions=["all segments carry bytes of one underlying stream and lie within half the sequence space of the current position",
+                 "legacy follower exposes delivered data only through its data callback; its state is checked whenever the callback fires and whenever the model says the prefix grew"],
+)
+
+# per-property fragments (one file per property keeps concurrent edits apart)
+for _f in sorted(glob.glob(os.path.join(os.path.dirname(os.path.abspath(__file__)), "checks_d", "c*.py"))):
+    exec(compile(open(_f).read(), _f, "exec"))
